@@ -337,3 +337,22 @@ def uses_of_local(body, local):
         if p is not None and p["l"] == local:
             out.append((bb, "term", "yield", p))
     return out
+
+
+def promoted_rvalue(crate, body, desc):
+    """If an origin descriptor is a promoted constant (`const f::promoted[k]`), return the rvalue stored in it."""
+    import re
+    if desc.get("k") != "const":
+        return None
+    sv = desc["c"].get("s") or ""
+    m = re.search(r"promoted\[(\d+)\]", sv)
+    if not m:
+        return None
+    root = body.path
+    pb = crate.by_path.get("%s::promoted[%s]" % (root, m.group(1)))
+    if pb is None:
+        return None
+    d = pb.origin({"k": "copy", "p": {"l": 0}})
+    if d["k"] == "rvalue":
+        return d["r"]
+    return None
